@@ -78,6 +78,29 @@ Definition de_construct (ballots : list (list N)) (order : list N) : list (Q * Q
   (map (de_voter order) ballots, map (fun a => (a, inject_Z (alt_pos order a))) order).
 
 (* ------------------------------------------------------------------------------------------------ *)
+(* (M) the six recognisers built on solve_consecutive_ones, with the solver as a parameter:
+   solve M nc = Some column_order  for (True, ordered_idx),  None for (False, None);
+   nc = matrix.shape[1] (known to numpy even when the matrix has no row) *)
+Section Recognisers.
+Variable solve : matrix -> nat -> option (list nat).
+
+Definition is_candidate_interval (alts : list N) (ballots : list (list N)) : option (list N) :=
+  option_map (order_of_perm alts) (solve (ci_matrix alts ballots) (length alts)).
+Definition is_candidate_extremal_interval (alts : list N) (ballots : list (list N)) : option (list N) :=
+  option_map (fun idx => order_of_perm alts (firstn (length alts) idx))
+             (solve (cei_matrix alts ballots) (length alts)).
+Definition is_voter_interval (alts : list N) (ballots : list (list N)) : option (list nat) :=
+  solve (vi_matrix alts ballots) (length ballots).
+Definition is_voter_extremal_interval (alts : list N) (ballots : list (list N)) : option (list nat) :=
+  solve (vei_matrix alts ballots) (length ballots).
+Definition is_weakly_single_crossing (alts : list N) (ballots : list (list N)) : option (list nat) :=
+  solve (wsc_matrix alts ballots) (length ballots).
+Definition is_dichotomous_euclidean (alts : list N) (ballots : list (list N))
+  : option (list (Q * Q) * list (N * Q)) :=
+  option_map (de_construct ballots) (is_candidate_interval alts ballots).
+End Recognisers.
+
+(* ------------------------------------------------------------------------------------------------ *)
 (* (M) is_part / is_2_part.  Python sets are duplicate-free lists; == is mutual inclusion *)
 Definition subset (s t : list N) : bool := forallb (fun x => mem x t) s.
 Definition set_eq (s t : list N) : bool := subset s t && subset t s.
